@@ -39,6 +39,7 @@ type verifModel struct {
 }
 
 type verifOp struct {
+	rng  int // UploadPartCopy: 0 whole source, 1 last byte (bytes=-1), 2 first byte
 	kind int
 	key  int
 	key2 int
@@ -58,6 +59,7 @@ const (
 	opMPPart
 	opMPComplete
 	opMPAbort
+	opMPPartCopy
 	opCount
 )
 
@@ -237,6 +239,42 @@ func verifApply(e *verifEnv, m *verifModel, op verifOp) {
 		}
 		m.wrote(m.up.key, body, m.up.ct)
 		m.up = verifUploadModel{}
+	case opMPPartCopy:
+		verifAssume(m.up.active)
+		src := m.keys[op.key]
+		var opts *storage.UploadPartCopyOptions
+		one, zero := int64(1), int64(0)
+		switch op.rng {
+		case 1:
+			opts = &storage.UploadPartCopyOptions{Range: &storage.ByteRange{End: &one}}
+		case 2:
+			opts = &storage.UploadPartCopyOptions{Range: &storage.ByteRange{Start: &zero, End: &one}}
+		}
+		_, err := e.st.UploadPartCopy(verifCtx, e.bucket, key, e.bucket, verifKeys[m.up.key], m.up.id, int32(op.part), opts)
+		if !src.exists {
+			verifAssert(err != nil, "UploadPartCopy of an absent source succeeded")
+			return
+		}
+		if op.rng != 0 && len(src.body) == 0 {
+			// a byte range of an empty source: S3 answers InvalidRange, pithos
+			// accepts a suffix range as the empty part; C01 is about read-back,
+			// so either outcome is followed
+			if err != nil {
+				return
+			}
+			m.up.have[op.part-1], m.up.part[op.part-1] = true, nil
+			return
+		}
+		verifCover("part-copy")
+		verifAssert(err == nil, "UploadPartCopy failed")
+		body := src.body
+		switch op.rng {
+		case 1:
+			body = src.body[len(src.body)-1:]
+		case 2:
+			body = src.body[:1]
+		}
+		m.up.have[op.part-1], m.up.part[op.part-1] = true, body
 	case opMPAbort:
 		verifAssume(m.up.active)
 		err := e.st.AbortMultipartUpload(verifCtx, e.bucket, verifKeys[m.up.key], m.up.id)
@@ -301,6 +339,8 @@ func verifSetup(e *verifEnv, m *verifModel, which int) {
 		script(verifOp{kind: opCreateBucket})
 		verifSetVersioning(e, m, 2)
 		script(verifOp{kind: opPut, key: 0, body: x, ct: 1})
+	case 10: // two-part object a (put + append) and a pending upload on b
+		script(verifOp{kind: opCreateBucket}, verifOp{kind: opPut, key: 0, body: x, ct: 1}, verifOp{kind: opAppend, key: 0, body: y}, verifOp{kind: opMPCreate, key: 1, ct: 2})
 	case 9: // pending upload on a holding only part 2 (a gap)
 		script(verifOp{kind: opCreateBucket}, verifOp{kind: opMPCreate, key: 0, ct: 2}, verifOp{kind: opMPPart, part: 2, body: y})
 	case 8: // a and b with independently written (possibly identical) content
@@ -335,6 +375,10 @@ func VerifC01History() {
 		case opMPPart:
 			op.part = verifPick("part", 1, 2)
 			op.body = verifSymBody("part", 1)
+		case opMPPartCopy:
+			op.key = verifPick("key", 0, 1)
+			op.part = verifPick("part", 1, 2)
+			op.rng = verifPick("range", 0, 2)
 		}
 		verifApply(e, m, op)
 		verifObserve01(e, m)
